@@ -68,11 +68,11 @@ class Config(object):
         self.check_share = rng.choice([0.0, 0.4, 0.8])
         self.lag_pref = rng.choice([None, None, "zero", "max", "undetectable"])
         self.mixed_k = rng.random() < 0.3
-        self.marathon = prof["prop"] in ("C09", "C10") and rng.random() < 1.0 / 1500
+        self.marathon = prof["prop"] in ("C09", "C10") and rng.random() < 1.0 / 500
         if self.marathon:
             # one long-lived process: thousands of reads on one order-6 graph (state that only builds up over a long
             # history - memo tables, grow-only buffers - is reached here and nowhere else)
-            self.k, self.n_designs, self.max_ops = 6, 1, rng.randint(2000, 3000)
+            self.k, self.n_designs, self.max_ops = 6, 1, rng.randint(2500, 3500)
             self.populations = [("rows", 1)]
             self.strand_max = 120
             self.fault_weights = [("RANDOM", 6), ("MULTI", 2), ("LASTWIN", 2), ("TRUNC", 1), ("NONE", 1)]
@@ -186,7 +186,8 @@ class Designer(Client):
         if pop == "cycle":
             return {"op": "DESIGN", "id": ident, "kind": "rows", "k": k, "arcs": G.rows_to_arcs(G.cycle_rows(rng, k))}
         shape = {"rows": "any", "fast-rows": "fast", "closed-rows": "closed"}[pop]
-        return {"op": "DESIGN", "id": ident, "kind": "rows", "k": k, "arcs": G.random_arcs(rng, k, shape)}
+        density = rng.choice([0.25, 0.4, 0.55]) if cfg.marathon else None   # sparse: a random read has many detections
+        return {"op": "DESIGN", "id": ident, "kind": "rows", "k": k, "arcs": G.random_arcs(rng, k, shape, density)}
 
 
 def pick_design(rng, world, pred=None):
@@ -395,6 +396,8 @@ class Sequencer(Client):
             faults = ["FOREIGN"]
         elif kind == "RANDOM":
             m = n if n >= k else k
+            if cfg.marathon:
+                m = rng.randint(40, 120)      # unrelated strands of ordinary length, whatever the molecule was
             read, faults = "".join(rng.choice(M.NT) for _ in range(m)), ["RANDOM"]
         elif kind == "EMPTY":
             read, faults = "", ["EMPTY"]
